@@ -142,3 +142,50 @@ func TestRegressProofRelabel(t *testing.T) {
 	}
 	t.Fatalf("[%s] the proof of leaf 2 of a 3-leaf tree verifies against the same root when relabelled (index=1,total=2): Verify cannot tell the leaf count", idRelabel)
 }
+
+// TestRegressVerifyEmptyRoot — finding C10-verify-empty-root, shrunk: a proof that describes no path (two leaves stated,
+// no aunts) for an arbitrary item must not verify against an empty root, and a part set built from a header without a
+// hash must not admit parts.
+func TestRegressVerifyEmptyRoot(t *testing.T) {
+	item := []byte("not in any tree")
+	_, ps := merkle.ProofsFromByteSlices([][]byte{item}) // only to obtain the item's leaf hash
+	p := merkle.Proof{Total: 2, Index: 0, LeafHash: ps[0].LeafHash}
+	errNil := p.Verify(nil, item)
+	errEmpty := p.Verify([]byte{}, item)
+	set := types.NewPartSetFromHeader(types.PartSetHeader{Total: 2, Hash: nil})
+	added, _ := set.AddPart(&types.Part{Index: 0, Bytes: item, Proof: p})
+	lib.Case("TestRegressVerifyEmptyRoot", lib.FP("regress"), true)
+	if errNil != nil && errEmpty != nil && !added {
+		return
+	}
+	if lib.IsKnown(idEmptyRoot) {
+		lib.ObservedKnown(idEmptyRoot)
+		t.Logf("known finding re-observed: impossible path verifies against an empty root")
+		return
+	}
+	t.Fatalf("[%s] Proof{Total:2, Index:0, no aunts}.Verify(nil root)=%v, Verify(empty root)=%v, AddPart under a header without hash: added=%v — a failed root recomputation (nil) is compared equal to the empty root",
+		idEmptyRoot, errNil, errEmpty, added)
+}
+
+// TestRegressEmptyPartSetReader — finding C10-empty-partset-reader-panic, shrunk: the part set of empty data is complete
+// and must reassemble to zero bytes.
+func TestRegressEmptyPartSetReader(t *testing.T) {
+	ps := types.NewPartSetFromData(nil, 65536)
+	lib.Case("TestRegressEmptyPartSetReader", lib.FP("regress"), true)
+	var got []byte
+	var err error
+	var pnc interface{}
+	func() {
+		defer func() { pnc = recover() }()
+		got, err = io.ReadAll(ps.GetReader())
+	}()
+	if pnc == nil && err == nil && len(got) == 0 && ps.IsComplete() {
+		return
+	}
+	if pnc != nil && lib.IsKnown(idEmptyReader) {
+		lib.ObservedKnown(idEmptyReader)
+		t.Logf("known finding re-observed: reader of the empty part set panics")
+		return
+	}
+	t.Fatalf("[%s] NewPartSetFromData(nil): IsComplete=%v, reassembly: %d bytes err=%v panic=%v (want 0 bytes, no panic)", idEmptyReader, ps.IsComplete(), len(got), err, pnc)
+}
